@@ -9,6 +9,7 @@ par clang -c -O1 -g $SAN -fno-finite-loops -I$REPO $REPO/igris/util/printf_impl.
 # the libc entry points built on it: compiled against the host headers, public names renamed to igc_*
 par clang -c -O1 -g $SAN -fno-builtin -Wno-implicit-function-declaration -I$REPO $REPO/compat/libc/stdio/sprintf.c -o $BUILD/sprintf.o
 par clang -c -O1 -g $SAN -fno-builtin -Wno-implicit-function-declaration -I$REPO $REPO/compat/libc/stdio/fdprintf.c -o $BUILD/fdprintf.o
+par clang -c -O1 -g $SAN -fno-builtin -Wno-implicit-function-declaration -I$REPO $REPO/compat/libc/stdio/fdputc.c -o $BUILD/fdputc.o
 # harness: the oracle TU, and the typed-call thunks (about 3000 tiny instantiations: -O0, no instrumentation)
 par clang++ -std=c++20 -c -O1 -g $DEF -I$REPO -I$MC -I$H $H/c06_printf.cpp -o $BUILD/h.o
 par clang++ -std=c++20 -c -O0 $DEF -I$REPO -I$MC -I$H $H/c06_dispatch.cpp -o $BUILD/d.o
@@ -19,6 +20,7 @@ TF="-O1 -g -DNDEBUG -fsanitize=thread -fno-omit-frame-pointer -I$REPO -I$MC" # t
 par gcc -c $TF $REPO/igris/util/printf_impl.c -o $BUILD/printf_impl_tsan.o
 par gcc -c $TF -fno-builtin -Wno-implicit-function-declaration $REPO/compat/libc/stdio/sprintf.c -o $BUILD/sprintf_tsan.o
 par gcc -c $TF -fno-builtin -Wno-implicit-function-declaration $REPO/compat/libc/stdio/fdprintf.c -o $BUILD/fdprintf_tsan.o
+par gcc -c $TF -fno-builtin -Wno-implicit-function-declaration $REPO/compat/libc/stdio/fdputc.c -o $BUILD/fdputc_tsan.o
 par g++ -std=c++20 -c $TF -DREENT_ID='"C06"' $H/c06_reentrancy.cpp -o $BUILD/h_tsan.o
 par g++ -std=c++20 -O2 -g -I$MC -c $MC/sched/sched.cpp -o $BUILD/sched.o
 par g++ -std=c++20 -O2 -c -I$MC $MC/mc.cpp -o $BUILD/mc_gcc.o
@@ -29,16 +31,20 @@ VF="-O2 -g -DNDEBUG -funsigned-char -I$REPO"
 par gcc -c $VF $REPO/igris/util/printf_impl.c -o $BUILD/printf_impl_var.o
 par gcc -c $VF -fno-builtin -Wno-implicit-function-declaration $REPO/compat/libc/stdio/sprintf.c -o $BUILD/sprintf_var.o
 par gcc -c $VF -fno-builtin -Wno-implicit-function-declaration $REPO/compat/libc/stdio/fdprintf.c -o $BUILD/fdprintf_var.o
+par gcc -c $VF -fno-builtin -Wno-implicit-function-declaration $REPO/compat/libc/stdio/fdputc.c -o $BUILD/fdputc_var.o
 parwait
 objcopy --redefine-sym sprintf=igc_sprintf --redefine-sym vsprintf=igc_vsprintf --redefine-sym snprintf=igc_snprintf $BUILD/sprintf_var.o
-objcopy --redefine-sym fdprintf=igc_fdprintf --redefine-sym vfdprintf=igc_vfdprintf --redefine-sym fdputc=igc_fdputc $BUILD/fdprintf_var.o
-clang++ $BUILD/h.o $BUILD/d.o $BUILD/printf_impl_var.o $BUILD/sprintf_var.o $BUILD/fdprintf_var.o $BUILD/mc.o -ldl -o $BUILD/c06_variant
+objcopy --redefine-sym fdprintf=igc_fdprintf --redefine-sym vfdprintf=igc_vfdprintf --redefine-sym fdputc=igc_fdputc --redefine-sym write=igc_write $BUILD/fdprintf_var.o
+objcopy --redefine-sym fdputc=igc_fdputc --redefine-sym write=igc_write $BUILD/fdputc_var.o
+clang++ $BUILD/h.o $BUILD/d.o $BUILD/printf_impl_var.o $BUILD/sprintf_var.o $BUILD/fdprintf_var.o $BUILD/fdputc_var.o $BUILD/mc.o -ldl -o $BUILD/c06_variant
 objcopy --redefine-sym sprintf=igc_sprintf --redefine-sym vsprintf=igc_vsprintf --redefine-sym snprintf=igc_snprintf $BUILD/sprintf_tsan.o
-objcopy --redefine-sym fdprintf=igc_fdprintf --redefine-sym vfdprintf=igc_vfdprintf --redefine-sym fdputc=igc_fdputc $BUILD/fdprintf_tsan.o
-g++ -fsanitize=thread $BUILD/h_tsan.o $BUILD/printf_impl_tsan.o $BUILD/sprintf_tsan.o $BUILD/fdprintf_tsan.o $BUILD/sched.o $BUILD/mc_gcc.o -lm -ldl -lpthread -o $BUILD/c06_tsan
+objcopy --redefine-sym fdprintf=igc_fdprintf --redefine-sym vfdprintf=igc_vfdprintf --redefine-sym fdputc=igc_fdputc --redefine-sym write=igc_write $BUILD/fdprintf_tsan.o
+objcopy --redefine-sym fdputc=igc_fdputc --redefine-sym write=igc_write $BUILD/fdputc_tsan.o
+g++ -fsanitize=thread $BUILD/h_tsan.o $BUILD/printf_impl_tsan.o $BUILD/sprintf_tsan.o $BUILD/fdprintf_tsan.o $BUILD/fdputc_tsan.o $BUILD/sched.o $BUILD/mc_gcc.o -lm -ldl -lpthread -o $BUILD/c06_tsan
 objcopy --redefine-sym sprintf=igc_sprintf --redefine-sym vsprintf=igc_vsprintf --redefine-sym snprintf=igc_snprintf $BUILD/sprintf.o
-objcopy --redefine-sym fdprintf=igc_fdprintf --redefine-sym vfdprintf=igc_vfdprintf --redefine-sym fdputc=igc_fdputc $BUILD/fdprintf.o
-clang++ $SAN $BUILD/h.o $BUILD/d.o $BUILD/printf_impl.o $BUILD/sprintf.o $BUILD/fdprintf.o $BUILD/mc.o -o $BUILD/c06
+objcopy --redefine-sym fdprintf=igc_fdprintf --redefine-sym vfdprintf=igc_vfdprintf --redefine-sym fdputc=igc_fdputc --redefine-sym write=igc_write $BUILD/fdprintf.o
+objcopy --redefine-sym fdputc=igc_fdputc --redefine-sym write=igc_write $BUILD/fdputc.o
+clang++ $SAN $BUILD/h.o $BUILD/d.o $BUILD/printf_impl.o $BUILD/sprintf.o $BUILD/fdprintf.o $BUILD/fdputc.o $BUILD/mc.o -o $BUILD/c06
 echo "printf $BUILD/c06" > $BUILD/runs.txt
 echo "reentrancy $BUILD/c06_tsan" >> $BUILD/runs.txt
 echo "ndebug_unsigned_char_gcc_O2 $BUILD/c06_variant --only integers,flag_sequences,chars,strings_guard_page,pointers,mixed_formats,libc_entries" >> $BUILD/runs.txt
